@@ -514,13 +514,13 @@ func RuleKNestedLimit(c *core.Ctx) {
 		})
 	}
 	// the group of the include loader: Go is called from within a task of the same group
-	parseRec := p.Func(pkgSyntax, "parseRec")
-	if parseRec == nil {
-		c.Anchor(rule, "syntax.parseRec")
+	li := loaderCycle(c)
+	if len(li.readers) == 0 {
+		c.Anchor(rule, "the recursive file loader of lib/syntax")
 		return
 	}
 	nested := false
-	for _, fn := range core.WithAnon(parseRec) {
+	for _, fn := range li.list {
 		core.EachInstr(fn, func(ins ssa.Instruction) {
 			if call, ok := ins.(ssa.CallInstruction); ok {
 				if callee := call.Common().StaticCallee(); callee != nil && core.PkgPathOf(callee) == "golang.org/x/sync/errgroup" && callee.Name() == "Go" {
@@ -529,7 +529,7 @@ func RuleKNestedLimit(c *core.Ctx) {
 			}
 		})
 	}
-	c.Ob(rule, "syntax.parseRec:nested submission, unlimited group", parseRec.Pos(), core.FuncName(parseRec), verdictIf(nested),
+	c.Ob(rule, "recursive loader:nested submission, unlimited group", li.readers[0].Pos(), core.FuncName(li.readers[0]), verdictIf(nested),
 		fmt.Sprintf("the include loader submits one task per include from within a task of the same errgroup; %d concurrency limits set in lib/", n))
 	c.Floor(rule, 1)
 }
